@@ -552,6 +552,10 @@ func (c *valConfig) genVal(rt *rapid.T, depth int, pub bool) *Val {
 			v.Sub = []*Val{c.genPanicPayload(rt, depth, pub)}
 			return v
 		}
+		if rapid.IntRange(0, 3).Draw(rt, "sm2") == 0 {
+			// the message is safe, the fields are not
+			return c.leafS(rt, "safemsg2", pub, false)
+		}
 		return c.leafS(rt, k, true, false)
 	case "safefmt":
 		k := c.pickK(rt, "k", []string{"safefmt", "safefmt", "psafefmt", "errsafefmt"})
